@@ -333,6 +333,27 @@ def run_reset(ck: Check):
             if math.isnan(pnan) and d.X_ref is None:
                 ck.violation(dict(clause="reset-iff", detector=cls.__name__, p="nan"), dict(what="the detector was reset although the returned p-value is NaN (not <= alpha)", detector=cls.__name__, alpha=alpha, reference=ref.tolist(), sample=[None if math.isnan(v) else float(v) for v in x]))
             ck.count("nan_p_cases", int(math.isnan(pnan)))
+    # univariate samples given as single-column (n, 1) arrays: the p-value may come back as a length-1 array, the rule is the same
+    from frouros.detectors.data_drift import CVMTest, MannWhitneyUTest
+
+    for cls in (KSTest, CVMTest, MannWhitneyUTest, WelchTTest):
+        for shift, alpha in ((5.0, 0.05), (0.0, 1e-6)):
+            ref = nprng.normal(0, 1, (12, 1))
+            x = nprng.normal(shift, 1, (10, 1))
+            try:
+                twin = cls()
+                twin.fit(X=ref)
+                p0 = float(np.asarray(twin.compare(X=x)[0].p_value).reshape(-1)[0])
+                d = cls(callbacks=[ResetStatisticalTest(alpha=alpha)])
+                d.fit(X=ref)
+                d.compare(X=x)
+            except Exception as e:  # noqa: BLE001
+                ck.count("column_input_rejected:" + cls.__name__)
+                continue
+            ck.case(dict(detector=cls.__name__, alpha=alpha, kind="column-shaped", p=p0), nontrivial=True, key=repr((cls.__name__, alpha, "col", shift)))
+            ck.count("column_shaped_cases")
+            if (d.X_ref is None) != (p0 <= alpha):
+                ck.violation(dict(clause="reset-iff", detector=cls.__name__, input="column-shaped"), dict(what="reset decision differs from (p <= alpha) for single-column (n, 1) samples", detector=cls.__name__, alpha=alpha, p=p0, was_reset=d.X_ref is None, reference_shape=list(ref.shape), sample_shape=list(x.shape)))
     # tiny p-values and tiny alphas (both far below the spacing of floats near 1): two fully separated samples give
     # p of order 1e-18 (KS, n = m = 32) / 1e-9 (n = m = 16); alpha a factor 100 below / above p and at p exactly
     for nsep in (16, 32):
